@@ -153,12 +153,15 @@ class GateListener(Listener):
 
     def __init__(self) -> None:
         self.events: List[Tuple[str, str, Tuple[str, ...], Tuple[str, ...]]] = []
+        self.calls: List[List[str]] = []                 # per calculation call: "name:uuid" of every feature handed to it
         self.lock = threading.Lock()
         self.current_step: Dict[int, Any] = {}
 
     def on_enter(self, group: str, names: List[str], cols: List[str], data: Any, features: Any = None) -> None:
         with self.lock:
             self.events.append(("enter", group, tuple(sorted(names)), tuple(sorted(cols))))
+            if features is not None:
+                self.calls.append(sorted(f"{f.get_name()}:{f.uuid}" for f in features.features))
         if REC.gating and features is not None:
             _wait_gate(frozenset(f.uuid for f in features.features))
 
